@@ -300,7 +300,17 @@ def real_ports(ctx):
     waits = [i for c in calls_in(run.node) if call_attr(c) == 'wait' and 'interfaces_started' in src(c.func) for i in cfg.node_of(c)]
     for c in ctor:
         ifarg = c.args[2] if len(c.args) > 2 else None
-        ok = ifarg is not None and 'self.interfaces' in src(ifarg)
+        # read through locals (`started = list(self.interfaces)` ... `list(started)`), flow sensitive: every definition
+        # reaching the constructor is a copy of the registry, not the list of configured uris
+        ok = False
+        if ifarg is not None:
+            rd = ReachingDefs(cfg, run.node)
+            names = [x for x in ast.walk(ifarg) if isinstance(x, ast.Name) and isinstance(x.ctx, ast.Load) and x.id not in ('list', 'tuple', 'sorted', 'set')]
+            if 'self.interfaces' in src(ifarg):
+                ok = True
+            elif len(names) == 1:
+                o = rd.origins_at(c, names[0])
+                ok = bool(o) and all('self.interfaces' in src(x) for x in o)
         ctx.check(ok, f'{run.qualname}:listener built from opened interfaces', c,
                   'ports are taken from self.interfaces', f'interface list `{src(ifarg) if ifarg is not None else None}` is not self.interfaces', run)
         started = [x for x in calls_in(run.node) if call_name(x) == 'mkthread' and x.args and 'discovery.run' in src(x.args[0])]
@@ -728,3 +738,114 @@ def datagram_size_is_bounded_or_deep_nesting_is_contained(ctx):
                   f'receive size {v} bytes' if small else 'RecursionError is covered',
                   f'`{src(c)}` hands up to {v if v is not None else "?"} bytes to json.loads and the handler covers ValueError only: a datagram of some ten thousand '
                   "'[' characters raises RecursionError, which ends the responder thread", run)
+
+
+def _linear(e):
+    """expression as {symbol: coefficient, '': constant} when it is built from names, integers, + and -; else None"""
+    if isinstance(e, ast.Constant) and isinstance(e.value, int) and not isinstance(e.value, bool):
+        return {'': e.value}
+    if isinstance(e, ast.Name):
+        return {e.id: 1}
+    if isinstance(e, ast.UnaryOp) and isinstance(e.op, ast.USub):
+        v = _linear(e.operand)
+        return None if v is None else {k: -c for k, c in v.items()}
+    if isinstance(e, ast.BinOp) and isinstance(e.op, (ast.Add, ast.Sub)):
+        a, b = _linear(e.left), _linear(e.right)
+        if a is None or b is None:
+            return None
+        out = dict(a)
+        for k, c in b.items():
+            out[k] = out.get(k, 0) + (c if isinstance(e.op, ast.Add) else -c)
+        return out
+    return None
+
+
+def _truth_in_last_iteration(test, var, stop):
+    """three-valued truth of a condition in the LAST round of `for var in range(stop)` (var == stop - 1): comparisons that are
+    linear in the loop variable and the bound are decided, everything else is open"""
+    if isinstance(test, ast.UnaryOp) and isinstance(test.op, ast.Not):
+        v = _truth_in_last_iteration(test.operand, var, stop)
+        return None if v is None else not v
+    if isinstance(test, ast.BoolOp):
+        vals = [_truth_in_last_iteration(v, var, stop) for v in test.values]
+        if isinstance(test.op, ast.And):
+            return False if any(v is False for v in vals) else (True if all(v is True for v in vals) else None)
+        return True if any(v is True for v in vals) else (False if all(v is False for v in vals) else None)
+    if isinstance(test, ast.Compare) and len(test.ops) == 1:
+        l, r, st = _linear(test.left), _linear(test.comparators[0]), _linear(stop)
+        if l is None or r is None or st is None:
+            return None
+        d = dict(l)
+        for k, c in r.items():
+            d[k] = d.get(k, 0) - c
+        cv = d.pop(var, 0)
+        if cv == 0:
+            return None
+        for k, c in st.items():
+            d[k] = d.get(k, 0) + cv * c
+        d[''] = d.get('', 0) - cv
+        if any(c for k, c in d.items() if k):
+            return None
+        x = d.get('', 0)
+        op = test.ops[0]
+        return {ast.Lt: x < 0, ast.LtE: x <= 0, ast.Gt: x > 0, ast.GtE: x >= 0, ast.Eq: x == 0, ast.NotEq: x != 0}.get(type(op))
+    return None
+
+
+@rule('C19.R4c', min_instances=1)
+def a_server_exists_only_after_a_successful_bind(ctx):
+    """TCPServer.__init__ (with its helpers): the bind is tried in a bounded retry loop; the constructor may return normally only
+    after a try succeeded.  In the LAST round of the loop the handler of the failed bind must raise - decided by walking the
+    handler with the loop variable fixed to its last value (comparisons linear in the loop variable and the bound).  A loop
+    that can run out leaves a never-bound server: its uri is registered as started and the discovery responder announces a
+    port that belongs to another process"""
+    m = ctx.m
+    init = m.method('frappy.protocol.interface.tcp.TCPServer', '__init__', inherited=False)
+    ctx.analysed(init)
+    cfg = CFG(init.node, m, init.module)
+    binds = [c for c in calls_in(init.node) if call_attr(c) == '__init__' and 'bind_and_activate' in {k.arg for k in c.keywords}] or \
+        [c for c in calls_in(init.node) if call_attr(c) in ('server_bind', 'bind')]
+    if not binds:
+        raise AnchorMissing('the binding base class constructor call (bind_and_activate=...) not found in TCPServer.__init__')
+    for c in binds:
+        loop = next((a for a in ancestors(c) if isinstance(a, (ast.For, ast.While))), None)
+        key = f'{init.qualname}:the retry loop can not run out without a bound socket'
+        if loop is None:
+            ctx.ok(key, c, 'no retry loop: a failing bind raises', init)
+            continue
+        if not (isinstance(loop, ast.For) and isinstance(loop.target, ast.Name) and isinstance(loop.iter, ast.Call) and dotted(loop.iter.func) == 'range'
+                and len(loop.iter.args) == 1):
+            ctx.undecided(key, loop, 'retry loop is not `for n in range(bound)`', init)
+            continue
+        if loop.orelse and all(isinstance(x, ast.Raise) for x in loop.orelse[-1:]):
+            ctx.ok(key, loop, 'the else clause of the loop raises', init)
+            continue
+        var, stop = loop.target.id, loop.iter.args[0]
+        tries = [t for t, part in enclosing_tries(c) if part == 'body' and any(a is loop for a in ancestors(t))]
+        if not tries:
+            ctx.undecided(key, loop, 'the bind is not inside a try of the loop', init)
+            continue
+        loop_ids = set(cfg.ids(loop))
+        after = set()
+        for h in tries[0].handlers:
+            # walk the handler in the last round
+            start = cfg.ids(h)
+            seen, stack = set(), list(start)
+            while stack:
+                n = stack.pop()
+                if n in seen:
+                    continue
+                seen.add(n)
+                t = cfg.nodes[n]
+                if n in loop_ids and n not in start:
+                    after.add(n)        # back at the loop head: the last round ended without raise
+                    continue
+                known = _truth_in_last_iteration(t.ast, var, stop) if t.kind == 'test' and not isinstance(t.ast, ast.stmt) else None
+                for b, lab in cfg.succ[n]:
+                    if lab == 'exc' or (known is True and lab == 'F') or (known is False and lab == 'T'):
+                        continue
+                    stack.append(b)
+        ctx.check(not after, key, loop, 'in the last round every handler of the failed bind raises',
+                  f'in the last round of `{src(loop).splitlines()[0]}` a handler of the failed bind can end without raising: the loop runs out, the constructor '
+                  'returns a server whose socket was never bound ("TCPServer initiated"), the interface is registered as started and the discovery responder '
+                  'answers with a port this node does not listen on', init)
